@@ -49,6 +49,11 @@ def gen_case(rng):
         else:
             content = bytes(rng.randrange(256) for _ in range(rng.choice([0, 1, 8, 64]))).hex()
         files.append({'name': name, 'kind': kind, 'how': how, 'content': content})
+    if files and rng.random() < 0.2:
+        # a second output with the same base name in another directory (reference copies collide)
+        twin = dict(files[0], how='dir2', content=files[0]['content'] + ('x\n' if files[0]['kind'] == 'text' else '00'))
+        files[0]['how'] = 'dir'
+        files.append(twin)
     flags = []
     if rng.random() < 0.15:
         flags.append('--no-stdout')
@@ -65,7 +70,8 @@ def gen_case(rng):
                          'test_with-dash.py', 'test_with.dot.py', 'testcmd.py'])
     return {'stdout': gen_text(rng), 'stderr': gen_text(rng, 2) if rng.random() < 0.5 else '', 'files': files,
             'status': status, 'iterations': rng.choice([1, 2, 2, 3]), 'flags': flags, 'script': script,
-            'existing': rng.random() < 0.5, 'cmd_style': rng.choice(['cat', 'cat', 'printf'])}
+            'existing': rng.random() < 0.5, 'cmd_style': rng.choice(['cat', 'cat', 'printf']),
+            'preexisting': rng.random() < 0.25, 'preserve_times': rng.random() < 0.3}
 
 
 def target_of(fl, base='w'):
@@ -74,9 +80,16 @@ def target_of(fl, base='w'):
         return '../%s-out/%s' % (base, fl['name'])
     if fl['how'] == 'dir':
         return 'outdir/' + fl['name']
+    if fl['how'] == 'dir2':
+        return 'outdir2/' + fl['name']
     if fl['how'] == 'glob':
         return 'g_' + fl['name']
     return fl['name']
+
+
+def src_of(fl, index):
+    """the file the command copies to produce output number `index`"""
+    return 'src%d_%s' % (index, fl['name'])
 
 
 def build_dir(case, d):
@@ -95,8 +108,8 @@ def build_dir(case, d):
         parts.append('cat in_out')
     parts.append('cat in_err >&2')
     refs = []
-    for fl in case['files']:
-        src = 'src_' + fl['name']
+    for fi, fl in enumerate(case['files']):
+        src = src_of(fl, fi)
         mode = 'wb'
         data = fl['content'].encode('utf-8') if fl['kind'] == 'text' else bytes.fromhex(fl['content'])
         with open(os.path.join(d, src), mode) as f:
@@ -106,6 +119,10 @@ def build_dir(case, d):
             os.makedirs(os.path.join(d, 'outdir'), exist_ok=True)
             if 'outdir' not in refs:
                 refs.append('outdir')
+        elif fl['how'] == 'dir2':
+            os.makedirs(os.path.join(d, 'outdir2'), exist_ok=True)
+            if 'outdir2' not in refs:
+                refs.append('outdir2')
         elif fl['how'] == 'glob':
             if 'g_*' not in refs:
                 refs.append('g_*')
@@ -116,7 +133,12 @@ def build_dir(case, d):
         else:
             refs.append(target)
         fl['target'] = target
-        parts.append('if test -f %s; then cp %s %s; fi' % (src, src, target))
+        cp = 'cp -p' if case.get('preserve_times') else 'cp'
+        parts.append('if test -f %s; then %s %s %s; fi' % (src, cp, src, target))
+        if case.get('preexisting'):
+            # the command was tried by hand before: its outputs are already there when the generator looks
+            import shutil as _sh
+            _sh.copy2(os.path.join(d, src), os.path.join(d, target))
     parts.append('exit $(cat in_status)')
     if case.get('existing'):
         with open(os.path.join(d, 'bystander.txt'), 'w') as f:
